@@ -473,6 +473,24 @@ static void f14_render (uint64_t idx) {
   S ("  mul r, a, 3\n  add r, r, b\n  mul r, r, 5\n  add r, r, p0\n  xor r, r, q0\n  mul r, r, 7\n  add r, r, n\n  ret r\n"); end_func ();
 }
 
+/* =============================== F15: operations whose operands are constants the optimizer knows (folding in GVN/CCP, link-time simplification) =============================== */
+static const char *F15_OP[] = {"add", "adds", "sub", "subs", "mul", "muls", "and", "ands", "or", "ors", "xor", "xors", "lsh", "lshs", "rsh", "rshs", "ursh", "urshs", "eq", "eqs", "ne", "nes", "lt", "lts", "ult", "ults",
+                               "le", "les", "ule", "ules", "gt", "gts", "ugt", "ugts", "ge", "ges", "uge", "uges"};
+#define NF15O 38
+static const char *F15_K[] = {"0", "1", "-1", "2", "2147483647", "2147483648", "-2147483648", "4294967295", "4294967296", "9223372036854775807", "-9223372036854775808", "31"};
+#define NF15K 12
+static uint64_t f15_count (int th) { return 3ull * NF15O * NF15K * NF15K; }
+static void f15_render (uint64_t idx) {
+  int k2 = idx % NF15K; idx /= NF15K; int k1 = idx % NF15K; idx /= NF15K; int op = idx % NF15O; int form = (int) (idx / NF15O);
+  begin_func (""); S ("  mov r0, %s\n  mov r1, %s\n", F15_K[k1], F15_K[k2]);
+  if (form == 1) S ("  adds r0, r0, 1\n  sub r1, r1, 1\n");         /* constants produced by folded 32-/64-bit arithmetic */
+  if (form == 2 && op >= 18) { const char *o = F15_OP[op]; S ("  mov r2, 0\n  %sb%s L1, r0, r1\n  mov r2, 1\nL1:\n", o[0] == 'u' ? "u" : "", o[0] == 'u' ? o + 1 : o); } /* the compare as a branch */
+  else S ("  %s r2, r0, r1\n", F15_OP[op]);
+  S ("  add r, r2, a\n  ret r\n"); end_func ();
+}
+static int f15_ninputs (uint64_t idx) { return 2; }
+static pinput f15_input (uint64_t idx, int i) { pinput p = {i ? 1000 : 0, 0, -1, 0, 0}; return p; }
+
 int progfam_thorough;
 static const family FAMILIES[] = {
   {"F1a-ext-chains", f1a_count, f1a_render, in_intgrid_n, in_intgrid},
@@ -494,6 +512,7 @@ static const family FAMILIES[] = {
   {"F12-hard-register-variables", f12_count, f12_render, in_intgrid_n, in_intgrid},
   {"F13-loop-carried-copies", f13_count, f13_render, f13_ninputs, f13_input},
   {"F14-structured-loops", f14_count, f14_render, f13_ninputs, f13_input},
+  {"F15-constant-operands", f15_count, f15_render, f15_ninputs, f15_input},
 };
 #define NFAM ((int) (sizeof (FAMILIES) / sizeof (FAMILIES[0])))
 #endif
